@@ -11,6 +11,7 @@ import (
 	"crypto/rsa"
 	"crypto/x509"
 	"encoding/pem"
+	"errors"
 	"fmt"
 	"math/big"
 	"strconv"
@@ -69,7 +70,15 @@ func keyNewEnv(ctx *Ctx) *keyEnv {
 		}
 	}
 	if env.shapeRSA == nil {
-		ctx.Res.Fail("key: no 512-bit RSA sample")
+		// the 512-bit sample was left out (see keyBuildRSASamples): the smallest two-prime sample takes its place
+		for _, s := range env.rsas {
+			if !s.lenient && !s.multi && (env.shapeRSA == nil || s.key.N.BitLen() < env.shapeRSA.N.BitLen()) {
+				env.shapeRSA = s.key
+			}
+		}
+	}
+	if env.shapeRSA == nil {
+		ctx.Res.Fail("key: no RSA sample for the accessor shapes")
 		return nil
 	}
 	env.blobs = keyBuildBlobs(ctx, env.shapeRSA)
@@ -116,6 +125,16 @@ func (env *keyEnv) client(v kmip.ProtocolVersion) *kmipclient.Client {
 	}
 	env.clients[k] = c
 	return c
+}
+
+// freshClient drops the cached client of a version (its connection may be in any state) and dials again.
+func (env *keyEnv) freshClient(v kmip.ProtocolVersion) *kmipclient.Client {
+	k := verStr(v)
+	if c, ok := env.clients[k]; ok {
+		_, _ = guard("Close", func() error { return c.Close() })
+		delete(env.clients, k)
+	}
+	return env.client(v)
 }
 
 func (env *keyEnv) close() {
@@ -446,17 +465,29 @@ func keyRtCase(env *keyEnv, path string, enc keyEnc, ver kmip.ProtocolVersion, b
 			outcome = "skipped"
 			return
 		}
-		r, p := guard("exec", func() wres {
-			// a broken framing must not block the engine: every exchange has a deadline
-			cctx, cancel := context.WithTimeout(context.Background(), 5*time.Second)
-			defer cancel()
-			rr, err := bl.ex.ExecContext(cctx)
-			if err != nil {
-				return wres{nil, err}
+		exec := func(c *kmipclient.Client, d time.Duration) (wres, string) {
+			return guard("exec", func() wres {
+				// a broken framing must not block the engine: every exchange has a deadline
+				cctx, cancel := context.WithTimeout(context.Background(), d)
+				defer cancel()
+				rr, err := b.build(c.Register().WithKeyFormat(kmipclient.KeyFormat(kf))).ExecContext(cctx)
+				if err != nil {
+					return wres{nil, err}
+				}
+				g, err := c.Get(rr.UniqueIdentifier).ExecContext(cctx)
+				return wres{g, err}
+			})
+		}
+		r, p := exec(cl, 5*time.Second)
+		if p == "" && r.err != nil && errors.Is(r.err, context.DeadlineExceeded) {
+			// a deadline can also be missed because the machine is busy: once more, on a fresh connection, with a
+			// longer deadline, before this is reported as a failure of the library
+			ctx.Res.Count("rt.wire.retry-after-timeout")
+			if c2 := env.freshClient(ver); c2 != nil {
+				cl = c2
+				r, p = exec(cl, 20*time.Second)
 			}
-			g, err := cl.Get(rr.UniqueIdentifier).ExecContext(cctx)
-			return wres{g, err}
-		})
+		}
 		if r.err != nil || p != "" {
 			env.wireFails++
 		}
